@@ -261,6 +261,25 @@ fn build(seed: u64, plan_ix: u64, steps_per_thread: usize) -> Vec<FThread> {
             let at1 = lists[1].steps.iter().position(|s| matches!(s, FStep::Set(_))).map_or(0, |p| p + 1);
             lists[1].steps.insert(at1, FStep::Spawn(2));
         }
+        _ if rough => {
+            // overlapping exit: root spawns 1 and 2 back to back; 1 is short
+            // (sets a mode, rounds once, ends - by a crash in plan 6) and is
+            // not joined until the end, so that its TEARDOWN overlaps the
+            // first library calls of 2 and the root's operations
+            let at = lists[0].steps.iter().position(|s| matches!(s, FStep::Set(_))).map_or(0, |p| p + 1);
+            lists[0].steps.insert(at, FStep::Spawn(1));
+            lists[0].steps.insert(at + 1, FStep::Spawn(2));
+            let keep = lists[1].steps.iter().position(|s| matches!(s, FStep::Set(_))).map_or(2, |p| p + 2);
+            let keep = keep.min(lists[1].steps.len());
+            lists[1].steps.truncate(keep);
+            if plan_ix % 8 == 6 {
+                lists[1].steps.push(FStep::Die);
+            }
+            // 2 reads a few times before its first set_default
+            for _ in 0..3 {
+                lists[2].steps.insert(0, FStep::Read);
+            }
+        }
         _ => {
             // respawn: root spawns 1, joins it (thread gone, TLS slot free), spawns 2
             let at = lists[0].steps.iter().position(|s| matches!(s, FStep::Set(_))).map_or(0, |p| p + 1);
@@ -268,9 +287,6 @@ fn build(seed: u64, plan_ix: u64, steps_per_thread: usize) -> Vec<FThread> {
             let mid = (lists[0].steps.len() + at) / 2;
             lists[0].steps.insert(mid, FStep::Join(1));
             lists[0].steps.insert(mid + 1, FStep::Spawn(2));
-            if rough {
-                lists[1].steps.push(FStep::Die);
-            }
         }
     }
     lists
